@@ -75,7 +75,7 @@ func RunKnown(j *core.Job, prop string) {
 		switch {
 		case class == "":
 			j.Rep.Notes = append(j.Rep.Notes, "known finding "+k.key+" no longer reproduces (behaves like the source now)")
-		case class == doc.Class:
+		case gateStage(class) == gateStage(doc.Class):
 			j.Rep.Known = append(j.Rep.Known, "key="+k.key+" "+k.what)
 		default:
 			path := ev.WriteReplay(prop, int64(j.Seed), 900000+len(j.Rep.Violations), &doc)
@@ -90,6 +90,26 @@ func y(e *gen.X) *gen.S            { return &gen.S{K: gen.SYield, E: e} }
 func lit(n int) *gen.X             { return &gen.X{K: gen.XLit, Lit: n} }
 func va(n string) *gen.X           { return &gen.X{K: gen.XVar, Name: n} }
 func bin(a *gen.X, op string, b *gen.X) *gen.X { return &gen.X{K: gen.XBin, A: a, Op: op, B: b} }
+
+// pinnedRaw: pinned cases written as raw declarations (shapes the IR cannot express).
+type rawPinned struct {
+	prop, what string
+	src, ref   []string
+	f          *gen.Func
+}
+
+func pinnedRaw() map[string]rawPinned {
+	return map[string]rawPinned{
+		// B1: a local variable named like the element type shadows it inside the generated thunks
+		"B1-element-type-name-shadowed-by-local": {
+			prop: "C03",
+			what: "a local variable of a generator named like (an identifier of) its element type: the generated code writes the element type as an explicit type argument (seq.Bind[*knode]) inside the scope of that variable, so it does not build (\"knode is not a type\"); source: func K7(root *knode) Iter[*knode] { for knode := root; knode != nil; knode = knode.next { Yield(knode) }; return nil }",
+			src: []string{"type knode struct {\n\tv    int\n\tnext *knode\n}\n\nfunc K7(n int) «Iter[*knode]» {\n\troot := &knode{v: n, next: &knode{v: n + 1}}\n\tfor knode := root; knode != nil; knode = knode.next {\n\t\t«Yield»(knode)\n\t}\n\treturn nil\n}\n"},
+			ref: []string{"type knode struct {\n\tv    int\n\tnext *knode\n}\n\nfunc K7(n int) «Iter[*knode]» {\n\treturn refco.Go(func(ʏ *refco.Y[*knode]) {\n\t\troot := &knode{v: n, next: &knode{v: n + 1}}\n\t\tfor knode := root; knode != nil; knode = knode.next {\n\t\t\tʏ.Yield(knode)\n\t\t}\n\t})\n}\n"},
+			f:   &gen.Func{Name: "K7", Gen: true, Elem: "*knode", Params: []string{"n"}, Args: [][]int{{1}}},
+		},
+	}
+}
 
 func pinned() map[string]struct {
 	prop, what string
@@ -180,6 +200,36 @@ func MakeKnown() {
 		must(os.WriteFile(filepath.Join(ev.Root(), file), data, 0o644))
 		fmt.Printf("finding: property=%s key=%s case=%s %s\n", p.prop, key, file, p.what)
 	}
+	makeKnownRaw(env)
+}
+
+// makeKnownRaw pins the raw cases: for these the recorded failure is an acceptance-gate failure.
+func makeKnownRaw(env *Env) {
+	keys := []string{}
+	for k := range pinnedRaw() {
+		keys = append(keys, k)
+	}
+	sortS(keys)
+	for _, key := range keys {
+		p := pinnedRaw()[key]
+		prog := &gen.Prog{Pkg: "p", Import: "dot", Files: []*gen.File{{Name: "known.go", UsesAPI: true, Decls: p.src, RefDecls: p.ref, Extern: []*gen.Func{p.f}}}}
+		files := filesOf(prog) // (the acceptance gate removes the culprit from the program)
+		b := env.NewBatch(prog)
+		b.WriteSources()
+		b.SourceGate()
+		b.Compile(false)
+		if len(b.Gate) == 0 {
+			fmt.Printf("%s: does not reproduce (accepted and builds)\n", key)
+			continue
+		}
+		g := b.Gate[0]
+		doc := &CReplay{Property: p.prop, Layer: "C", Kind: "gate", Func: p.f.Name, Stage: g.Stage, Msg: g.Msg,
+			Class: "acceptance-gate " + g.Stage + ": " + firstLines(g.Msg, 1), Pkg: "p", Files: files}
+		data, _ := json.MarshalIndent(doc, "", " ")
+		file := filepath.Join("known", key+".json")
+		must(os.WriteFile(filepath.Join(ev.Root(), file), data, 0o644))
+		fmt.Printf("finding: property=%s key=%s case=%s %s\n", p.prop, key, file, p.what)
+	}
 }
 
 func sortS(a []string) {
@@ -188,4 +238,10 @@ func sortS(a []string) {
 			a[j], a[j-1] = a[j-1], a[j]
 		}
 	}
+}
+
+// gateStage: when a check does not need the unoptimised stage, unopt/ is a copy of opt/ and
+// the compiler reports the same error for whichever it builds first.
+func gateStage(class string) string {
+	return strings.Replace(class, "acceptance-gate build-unopt:", "acceptance-gate build-opt:", 1)
 }
